@@ -36,6 +36,7 @@
 #include "mem/forward.h"
 #include "store/SwapMeta.h"
 #include "event.h"
+#include "SquidConfig.h"
 
 #include <cstdio>
 #include <cstring>
@@ -441,6 +442,8 @@ std::string runCase(const Case &c)
 int main(int argc, char **argv)
 {
     Mem::Init();
+    Config.memShared.defaultTo(false);
+    Config.shmLocking.defaultTo(false);
     const char *base = getenv("C57_TMP");
     std::string root = base ? base : "/dev/shm";
     Dir = root + "/c57-" + std::to_string(getpid());
